@@ -1359,11 +1359,15 @@ class ProcessPoolExecutor(Executor):
                 _threads_wakeups.pop(executor_manager_thread, None)
 
         # To reduce the risk of opening too many files, remove references to
-        # objects that use file descriptors.
-        self._executor_manager_thread = None
-        self._executor_manager_thread_wakeup = None
-        self._call_queue = None
-        self._result_queue = None
-        self._processes_management_lock = None
+        # objects that use file descriptors. When not waiting, the executor
+        # manager thread is still running: it needs these objects to re-spawn
+        # workers that timed out while some work is pending, so keep them
+        # until it has been joined (by a later shutdown(wait=True)).
+        if wait or executor_manager_thread is None:
+            self._executor_manager_thread = None
+            self._executor_manager_thread_wakeup = None
+            self._call_queue = None
+            self._result_queue = None
+            self._processes_management_lock = None
 
     shutdown.__doc__ = Executor.shutdown.__doc__
